@@ -212,6 +212,10 @@ func analyse(ids []string, repo, cfg, tier string) (rs map[string]*rep.Report, e
 	for _, id := range ids {
 		r := rep.New(id, cfg)
 		rs[id] = r
+		for _, n := range eng.AliasNotes() {
+			r.Assumption("renamed identifier recognised by shape [" + cfg + "]: " + n)
+		}
+		r.Assumption("unexported, statically called, non-recursive functions that no rule names are analysed as part of their callers (inlined, depth <= 4) [" + cfg + "]: " + strings.Join(p.TransparentNames(), ", "))
 		func() {
 			defer func() {
 				if e := recover(); e != nil {
